@@ -96,3 +96,12 @@ package query
 //@   modifies nothing
 //@   ensures[error-means-nothing] result2 != nil ==> result0 == nil && result1 == nil
 //@   ensures[exactly-the-events-of-the-range] result2 == nil ==> off(result0) == 0 && off(result1) == 0 && len(result0) == nBridgesOf(fromBlock, toBlock) && len(result1) == nClaimsOf(fromBlock, toBlock) && seq(result0) == bridgesOf(fromBlock, toBlock) && seq(result1) == claimsOf(fromBlock, toBlock)
+
+// the finalized root together with its leaf and the proof of that leaf to the root (what the FEP flow hands to the
+// aggchain prover): all three belong to the same leaf index
+//@ func (l *L1InfoTreeDataQuerier) GetFinalizedL1InfoTreeData
+//@   props C09
+//@   requires l != nil && l.l1InfoTreeSyncer != nil
+//@   modifies nothing
+//@   ensures[error-means-nothing] result3 != nil ==> result1 == nil && result2 == nil
+//@   ensures[root-leaf-proof-belong-together] result3 == nil ==> result1 != nil && result2 != nil && result2.Index == result1.L1InfoTreeIndex && result2.Hash == l1RootHashAt(result1.L1InfoTreeIndex) && result0 == l1ProofFrom(result2.Index, result2.Hash)
